@@ -311,19 +311,36 @@ func stableCallee(ctx astmatcher.Ctx, lit ast.Node, fun ast.Expr) bool {
 		sig, ok := fn.Type().(*types.Signature)
 		return ok && sig.Recv() == nil && fn.Parent() == fn.Pkg().Scope()
 	}
+	// a generic function is a value only when all its type arguments are written
+	// out: in 'return id(x)' they are inferred from the call, which disappears
+	typeArgs := func(e ast.Expr, n int) bool {
+		id, _ := e.(*ast.Ident)
+		if sel, ok := e.(*ast.SelectorExpr); ok {
+			id = sel.Sel
+		}
+		if id == nil {
+			return false
+		}
+		fn, ok := info.Uses[id].(*types.Func)
+		if !ok {
+			return false
+		}
+		sig, ok := fn.Type().(*types.Signature)
+		return ok && sig.TypeParams().Len() == n
+	}
 
 	switch fun := fun.(type) {
 	case *ast.ParenExpr:
 		return stableCallee(ctx, lit, fun.X)
 	case *ast.IndexExpr: // f[T]
-		return isFuncName(fun.X, pkgLevelFunc)
+		return isFuncName(fun.X, pkgLevelFunc) && typeArgs(fun.X, 1)
 	case *ast.IndexListExpr: // f[K, V]
-		return isFuncName(fun.X, pkgLevelFunc)
+		return isFuncName(fun.X, pkgLevelFunc) && typeArgs(fun.X, len(fun.Indices))
 	case *ast.Ident:
-		return pkgLevelFunc(fun)
+		return pkgLevelFunc(fun) && typeArgs(fun, 0)
 	case *ast.SelectorExpr:
 		if isFuncName(fun, pkgLevelFunc) { // pkg.F
-			return true
+			return typeArgs(fun, 0)
 		}
 		recv, ok := fun.X.(*ast.Ident)
 		if !ok {
